@@ -6,6 +6,7 @@
 //! from the missing output line.
 mod common;
 mod fam_ans;
+mod fam_range;
 mod fam_models;
 mod fam_chain;
 mod fam_bits;
@@ -26,6 +27,7 @@ fn run_case(family: &str, input: &[Int]) -> Vec<Int> {
     let mut out = Vec::new();
     match family {
         "ans" => fam_ans::run(&mut r, &mut out),
+        "range" => fam_range::run(&mut r, &mut out),
         "models" => fam_models::run(&mut r, &mut out),
         "chain" => fam_chain::run(&mut r, &mut out),
         "bits" => fam_bits::run(&mut r, &mut out),
